@@ -529,6 +529,42 @@ def r11(ctx):
     ctx.floor(R, 2)
 
 
+def r13(ctx):
+    R = "C07-R13"
+    ctx.rule(R, "a data sync never replaces durable data: sync_file / sync_file_data insert an empty placeholder inode into Fs::persisted_files so "
+                "that flushed writes have somewhere to land while the file's CreateFile is still pending - that insertion hangs on the `absent` edge "
+                "of a membership test on Fs::persisted_files itself (contains_key / get / entry on the same map). A test on another collection "
+                "(synced_entries: is the directory entry durable?) lets every later data sync overwrite the inode that earlier syncs filled")
+    PF = FS + "persisted_files"
+    n = 0
+    for fid in (FS + "sync_file", FS + "sync_file_data"):
+        b = ctx.w.bodies.get(fid)
+        if not b:
+            continue
+        for fb in ctx.w.family(fid):
+            for bb, t in fb.calls(re.compile(r"^indexmap::IndexMap::(insert|insert_full)$|HashMap::insert$|BTreeMap::insert$")):
+                if not t["args"] or PF not in _fields_of(fb, t["args"][0]):
+                    continue
+                n += 1
+                ok = False
+                for sbb, te, fe, o in guards_on(fb, lambda o: o["k"] == "call" and re.search(r"::(contains_key|contains)$", o["t"]["f"])):
+                    if PF in _fields_of(fb, o["t"]["args"][0]) and fe and fb.dominated_by_any(bb, edges=fe):
+                        ok = True
+                for sbb, m, els, adt, pl in variant_edges(fb, lambda p: True):
+                    if adt == "std::option::Option":
+                        src = origin(fb, {"c": {"l": pl["l"]}})
+                        if src["k"] == "call" and re.search(r"::(get|get_mut)$", src["t"]["f"]) and PF in _fields_of(fb, src["t"]["args"][0]):
+                            ne = m.get("None") or els
+                            if fb.dominated_by_edge(bb, ne):
+                                ok = True
+                ctx.inst(R, f"placeholder-only-when-absent:{fid.rsplit('::', 1)[1]}#{n}", ok, t["s"], "the placeholder inode is inserted only when the map has no inode for the path" if ok else
+                         f"`{fid}` inserts a fresh inode into persisted_files without testing that map for the path: while the file's directory entry is not yet durable every sync_all / fsync "
+                         "replaces the inode that earlier data syncs had filled - `AAAA` synced, `BBBB` synced, crash: the file holds \\0\\0\\0\\0BBBB")
+    if ctx.strict and n < 1:
+        ctx.bad(R, "placeholder-only-when-absent", "", "no placeholder insertion found in sync_file / sync_file_data: re-derive")
+    ctx.floor(R, 1)
+
+
 def r12(ctx):
     R = "C07-R12"
     ctx.rule(R, "a namespace record never overtakes an earlier record on the same name: sync_dir(d) selects the records of d's entries, but two "
@@ -593,6 +629,9 @@ def r12(ctx):
 
 
 def run(ctx):
+    from . import C10
+    C10.r5(ctx)   # what reaches the log is what the caller asked for: a truncating open logs its SetLen(0) also for a file it just created
+    r13(ctx)
     r12(ctx)
     r11(ctx)
     r10(ctx)
